@@ -1,6 +1,7 @@
 import SqlVerif.Props.C11Query
 import SqlVerif.Lemmas.QueryContent
 import SqlVerif.Props.C01
+import SqlVerif.Lemmas.QueryFix
 /-!
 # C01 on the query fragment — parse → print → parse
 
@@ -16,14 +17,34 @@ What is proved for EVERY configuration, fuel, recursion limit and token list:
   `[q'₁, …, q'ₙ]` — a consequence of `query_local` (C11): the printed statements do not look past
   the separator.
 
-What is NOT proved, and kept as `def`: `QueryReparseFixpoint` — the statement-level fixpoint
-`parseStatement (showToks q) = ok (q', [])` with `q'.sexp = q.sexp` for the printable, shape-normal
-queries.  The expression half exists (`Props/C01.lean` `reparse_fixpoint_sub`); the missing piece is
-the analogue of `parse_sim` for the ~40 functions of the query layer (the parser takes the same
-branches on two token lists with the same `canon1` image).  It is decided instead (a) on the model
-by kernel evaluation for the normalisations `Display` performs (`fixpoint_instances`), (b) on the
-real code by the stream `queries` (reparse statistics of every accepted line) and the whole-grammar
-oracle C01.
+* `query_norm_invariant` — the statement parser respects the token image `qc` (same branches, trees
+  with the same image, rests with the same image) — the query-layer analogue of `C01.norm_invariant`
+  (`Lemmas/QuerySim.lean`: one lemma per function of `Model/Query.lean`, fuel induction over the
+  mutual block);
+* `query_printer_emits_normal_forms` — for printable trees of normal shape over lexer-like tokens the
+  printed tokens are, token by token, the consumed ones up to `qc` (`Lemmas/QueryWF.lean`: what the
+  parser guarantees of its trees; `Lemmas/QueryFaithful.lean`: the structural argument);
+* `query_reparse_fixpoint_partial` (+ `_sub` with a continuation, `query_reparse_fixpoint_normal` in the
+  form of the property, `query_script_fixpoint_partial` for scripts) — **the statement-level fixpoint**:
+  `parseStatement ts = ok (q, [])`, `q.printable`, `q.normal`, `LexOk ts` ⟹
+  `parseStatement q.showToks = ok (q.norm, [])` with the same fuel and limit, and `q.norm.sexp = q.sexp`.
+
+Side conditions (all decidable, all satisfiable — examples at the end):
+* `Query.printable` (`Lemmas/QueryContent.lean`): every expression is `Expr.printable` (C01), and the
+  LIMIT / OFFSET clauses come in printing order;
+* `Query.normal` (`Lemmas/QueryFaithful.lean`): the shapes `Display` prints token by token — an alias is
+  absent or written with `AS`; no `SELECT ALL`; joins written without `INNER` / `OUTER`; no trailing
+  comma; at most `LIMIT e` then `OFFSET e` (no `LIMIT ALL`, no `LIMIT a, b`, no `OFFSET … LIMIT …`);
+* `LexOk ts`: every keyword token of the input is as a lexer makes it (unquoted, no leading underscore, no
+  period, spelled `from` up to case exactly when it is `FROM`) — the parser looks at the spelling of a
+  word in `SELECT from …` (`isBareFrom`) and in BigQuery table names.
+
+What is NOT proved: the fixpoint for the shapes `Display` re-writes (alias without `AS`, `SELECT ALL`,
+`INNER` / `OUTER`, trailing commas, `LIMIT ALL`, re-ordered LIMIT / OFFSET).  There the printed token list
+is not an image of the source; the proof would need that the expression parser stops at an inserted `AS`
+exactly where it stopped at the alias.  `QueryReparseFixpoint` stays a `def` for arbitrary shape
+predicates; these shapes are decided (a) on the model by kernel evaluation (`fixpoint_instances`,
+`rewritten_shapes_reparse_to_norm`), (b) on the real code by the stream `queries` and the oracle C01.
 
 Where the current code is NOT a fixpoint inside the fragment: `all_as_identifier_not_fixpoint`.
 -/
@@ -112,13 +133,85 @@ theorem query_script_reparse_partial (c : QCfg) (fuel limit : Nat) (qs : List (Q
     obtain ⟨⟨p, hp, h1, h2⟩, _⟩ := items_mem qs it hit
     rw [h1, h2]; exact h p hp
 
-/-- the statement-level fixpoint for the modelled queries (token level).  NOT proved: needs the
-query-layer analogue of `Pratt.parse_sim`; decided by evaluation on instances (below), by the stream
-`queries` and by the oracle C01 on the real code. -/
+-- ------------------------------------------------------------------ the statement-level fixpoint
+/-- **norm-invariance at the query layer** (`Lemmas/QuerySim.lean`): on two token lists with the same
+observable image `qc` (identifiers, numbers, strings literally; of a keyword token its keyword, quote
+style, and whether it is spelled `from` / starts with `_` / contains `.`; `==` = `=`) the statement
+parser succeeds on both or on none, takes the same branches (trees with the same image slot by slot)
+and leaves rests with the same image — every dialect record, both option values, every fuel and limit -/
+theorem query_norm_invariant (c : QCfg) (fuel limit : Nat) (a b : List Tok) (q : Query) (r : List Tok)
+    (hs : a.map qc = b.map qc) (h : parseStatement c fuel limit a = .ok (q, r)) :
+    ∃ q' r', parseStatement c fuel limit b = .ok (q', r') ∧ q'.mapT qc = q.mapT qc ∧ r'.map qc = r.map qc :=
+  parseStatement_sim2 c fuel limit hs h
+
+/-- what every lexer-made token list satisfies: a keyword token is unquoted, does not start with an
+underscore, contains no period, and is spelled `from` (up to case) exactly when it is `FROM` -/
+abbrev LexOk (ts : List Tok) : Prop := ts.all tokOk = true
+
+/-- **the printer emits normal forms**: for an accepted statement whose tree is `printable`
+(`Lemmas/QueryContent.lean`: every expression printable, LIMIT / OFFSET in printing order) and of
+`normal` shape (`Lemmas/QueryFaithful.lean`: aliases written with `AS`, no `SELECT ALL`, joins without
+`INNER` / `OUTER`, no trailing comma, no `LIMIT ALL`, no `LIMIT a, b`, `LIMIT` before `OFFSET`), the
+printed tokens are, token by token, the consumed tokens up to the image `qc` -/
+theorem query_printer_emits_normal_forms (c : QCfg) (fuel limit : Nat) (ts : List Tok) (q : Query) (rest : List Tok)
+    (h : parseStatement c fuel limit ts = .ok (q, rest)) (hp : q.printable = true) (hn : q.normal = true)
+    (ht : LexOk ts) : ∃ pre, ts = pre ++ rest ∧ pre.map qc = q.showToks.map qc := by
+  refine ⟨q.flatten, parseStatement_yield c fuel limit ts q rest h, ?_⟩
+  have hf := norm_faithful q (parse_wf c fuel limit ts q rest h) hn hp (flatten_tokOk c fuel limit ts q rest h ht)
+  rw [showToks_eq_norm, ← query_flatten_qc, ← query_flatten_qc, hf]
+
+/-- re-parsing the printed statement in front of any continuation that looks like the original one -/
+theorem query_reparse_fixpoint_sub (c : QCfg) (fuel limit : Nat) (ts : List Tok) (q : Query) (rest rest' : List Tok)
+    (h : parseStatement c fuel limit ts = .ok (q, rest)) (hp : q.printable = true) (hn : q.normal = true)
+    (ht : LexOk ts) (hr : rest.map qc = rest'.map qc) :
+    parseStatement c fuel limit (q.showToks ++ rest') = .ok (q.norm, rest') :=
+  query_reparse_sub c fuel limit ts q rest rest' h hp hn ht hr
+
+/-- **parse → print → parse is a fixpoint** on the query fragment (token level), for EVERY dialect
+record, option value, fuel, recursion limit and token list: if the statement parser accepts `ts`
+completely with tree `q`, `q` is printable and of normal shape and `ts` is lexer-like, then parsing the
+printed tokens — with the same fuel and limit — gives `q.norm`, the tree itself with every stored
+token replaced by the printed one, and `q.norm` holds the same AST as `q` (`sexp`). -/
+theorem query_reparse_fixpoint_partial (c : QCfg) (fuel limit : Nat) (ts : List Tok) (q : Query)
+    (h : parseStatement c fuel limit ts = .ok (q, [])) (hp : q.printable = true) (hn : q.normal = true)
+    (ht : LexOk ts) :
+    parseStatement c fuel limit q.showToks = .ok (q.norm, []) ∧ q.norm.sexp = q.sexp := by
+  have := query_reparse_sub c fuel limit ts q [] [] h hp hn ht rfl
+  simp only [List.append_nil] at this
+  exact ⟨this, query_sexp_norm q⟩
+
+/-- the statement-level fixpoint for the modelled queries (token level), in the form of the property.
+PROVED for `normalShape := Query.normal` and lexer-like input: `query_reparse_fixpoint_normal`.
+Not proved for the shapes `Display` re-writes (alias without `AS`, `SELECT ALL`, `INNER` / `OUTER`,
+trailing commas, `LIMIT ALL`, `OFFSET … LIMIT …`): there the printed token list is not a token-by-token
+image of the source and the argument needs, in addition, that the expression parser stops at an inserted
+`AS` where it stopped at the alias; decided by evaluation on instances (`fixpoint_instances`), by the
+stream `queries` and by the oracle C01 on the real code. -/
 def QueryReparseFixpoint (normalShape : Query → Bool) : Prop :=
   ∀ (c : QCfg) (fuel limit : Nat) (ts : List Tok) (q : Query),
-    parseStatement c fuel limit ts = .ok (q, []) → q.printable = true → normalShape q = true →
+    parseStatement c fuel limit ts = .ok (q, []) → LexOk ts → q.printable = true → normalShape q = true →
     ∃ q', parseStatement c fuel limit q.showToks = .ok (q', []) ∧ q'.sexp = q.sexp
+
+theorem query_reparse_fixpoint_normal : QueryReparseFixpoint Query.normal := by
+  intro c fuel limit ts q h ht hp hn
+  exact ⟨q.norm, query_reparse_fixpoint_partial c fuel limit ts q h hp hn ht⟩
+
+/-- **script level**: statements accepted one by one (each printable, of normal shape, lexer-like)
+print to a script `print q₁ ; print q₂ ; …` that the statements loop parses back to the normal forms
+`[q₁.norm, …]`, which hold the same ASTs -/
+theorem query_script_fixpoint_partial (c : QCfg) (fuel limit : Nat) (srcs : List (List Tok × Query))
+    (h : ∀ p ∈ srcs, parseStatement c fuel limit p.1 = .ok (p.2, []) ∧ LexOk p.1 ∧ p.2.printable = true ∧
+      p.2.normal = true) :
+    parseScript c fuel limit (printScript (srcs.map (·.2))) = .ok (srcs.map (·.2.norm)) ∧
+      (srcs.map (·.2.norm.sexp)) = srcs.map (·.2.sexp) := by
+  have := query_script_reparse_partial c fuel limit (srcs.map fun p => (p.2, p.2.norm)) (by
+    intro p hp
+    simp only [List.mem_map] at hp
+    obtain ⟨s, hs, rfl⟩ := hp
+    obtain ⟨h1, h2, h3, h4⟩ := h s hs
+    exact (query_reparse_fixpoint_partial c fuel limit s.1 s.2 h1 h3 h4 h2).1)
+  simp only [List.map_map, Function.comp_def] at this
+  exact ⟨this, by simp [query_sexp_norm]⟩
 
 /-- the whole-grammar property -/
 def FullStatement {Ast : Type} (parse : List Nat → Option (List Ast)) (print : Ast → List Nat) : Prop :=
@@ -167,6 +260,80 @@ theorem all_as_identifier_not_fixpoint :
     (match parseStatement g 400 50 [kw "SELECT", kw "ALL", kw "ALL", wd "a"] with
      | .ok (q, []) => q.showText
      | _ => none) = some (str "SELECT ALL AS a") := by decide +kernel
+
+-- ------------------------------------------------------------------ non-vacuity of the fixpoint theorems
+/-- `select distinct a AS x, t.* from t AS u JOIN v USING (k) LEFT JOIN w ON a == b where c GROUP BY a
+HAVING c UNION ALL (SELECT 1 ORDER BY 1 DESC NULLS LAST LIMIT 2 OFFSET 3 ROWS)` -/
+def sampleN : List Tok :=
+  [lw "select" "SELECT", lw "distinct" "DISTINCT", wd "a", kw "AS", wd "x", .sym .Comma, wd "t", .sym .Period, .sym .Mul,
+   lw "from" "FROM", wd "t", kw "AS", wd "u", kw "JOIN", wd "v", kw "USING", .sym .LParen, wd "k", .sym .RParen,
+   kw "LEFT", kw "JOIN", wd "w", kw "ON", wd "a", .sym .DoubleEq, wd "b", lw "where" "WHERE", wd "c",
+   kw "GROUP", kw "BY", wd "a", kw "HAVING", wd "c", kw "UNION", kw "ALL", .sym .LParen, kw "SELECT", num "1",
+   kw "ORDER", kw "BY", num "1", kw "DESC", kw "NULLS", kw "LAST", kw "LIMIT", num "2", kw "OFFSET", num "3", kw "ROWS",
+   .sym .RParen]
+
+/-- the hypotheses of `query_reparse_fixpoint_partial` hold on `sampleN`: accepted completely,
+printable, of normal shape, lexer-like; the printed form differs from the source and the tree differs
+from its normal form (keyword spelling, `==`) -/
+theorem sampleN_hyps :
+    (match parseStatement g 400 50 sampleN with
+     | .ok (q, []) => some (q.printable, q.normal, sampleN.all tokOk, q.showToks == sampleN, q.norm == q)
+     | _ => none) = some (true, true, true, false, false) := by decide +kernel
+
+example : ∀ q, parseStatement g 400 50 sampleN = .ok (q, []) → q.printable = true → q.normal = true →
+    parseStatement g 400 50 q.showToks = .ok (q.norm, []) ∧ q.norm.sexp = q.sexp :=
+  fun q h hp hn => query_reparse_fixpoint_partial g 400 50 sampleN q h hp hn (by decide +kernel)
+
+/-- the same statement in another spelling: same image, other tokens (`query_norm_invariant`,
+`query_printer_emits_normal_forms`) -/
+def sampleN' : List Tok :=
+  sampleN.map fun t => match t with
+    | .word v q (some k) => if v == str "SELECT" then .word (str "Select") q (some k) else t
+    | .sym .DoubleEq => .sym .Eq
+    | t => t
+
+example : sampleN.map qc = sampleN'.map qc ∧ (sampleN == sampleN') = false := by decide +kernel
+
+example : ∀ q r, parseStatement g 400 50 sampleN = .ok (q, r) →
+    ∃ q' r', parseStatement g 400 50 sampleN' = .ok (q', r') ∧ q'.mapT qc = q.mapT qc ∧ r'.map qc = r.map qc :=
+  fun q r h => query_norm_invariant g 400 50 sampleN sampleN' q r (by decide +kernel) h
+
+/-- script level: two statements -/
+example : ∀ q1 q2, parseStatement g 400 50 sampleN = .ok (q1, []) → q1.printable = true → q1.normal = true →
+    parseStatement g 400 50 [kw "SELECT", wd "a"] = .ok (q2, []) → q2.printable = true → q2.normal = true →
+    parseScript g 400 50 (printScript [q1, q2]) = .ok [q1.norm, q2.norm] := by
+  intro q1 q2 h1 p1 n1 h2 p2 n2
+  have := (query_script_fixpoint_partial g 400 50 [(sampleN, q1), ([kw "SELECT", wd "a"], q2)] (by
+    intro p hp
+    simp only [List.mem_cons, List.mem_nil_iff, or_false] at hp
+    rcases hp with rfl | rfl
+    · exact ⟨h1, (by decide +kernel : LexOk sampleN), p1, n1⟩
+    · exact ⟨h2, (by decide +kernel : LexOk [kw "SELECT", wd "a"]), p2, n2⟩)).1
+  simpa using this
+
+/-- the shapes outside `normal` that `Display` re-writes (alias without `AS`, `SELECT ALL`, `INNER`,
+`OUTER`, trailing commas, `LIMIT ALL`): not of normal shape, and — by evaluation — they too re-parse
+to `q.norm`; `LIMIT a, b` and `OFFSET a LIMIT b` are not printable -/
+def reparseNorm (ts : List Tok) : Option (Bool × Bool × Bool) :=
+  match parseStatement g 400 50 ts with
+  | .ok (q, []) =>
+    match parseStatement g 400 50 q.showToks with
+    | .ok (q', []) => some (q.printable, q.normal, q' == q.norm)
+    | _ => some (q.printable, q.normal, false)
+  | _ => none
+
+theorem rewritten_shapes_reparse_to_norm :
+    [ [kw "SELECT", wd "a", wd "x", kw "FROM", wd "t", wd "u"],
+      [kw "SELECT", kw "ALL", wd "a"],
+      [kw "SELECT", wd "a", kw "FROM", wd "t", kw "INNER", kw "JOIN", wd "v", kw "ON", wd "a", kw "LEFT", kw "OUTER", kw "JOIN",
+       wd "w", kw "ON", wd "b"],
+      [kw "SELECT", wd "a", .sym .Comma, kw "FROM", wd "t", .sym .Comma],
+      [kw "SELECT", wd "a", kw "LIMIT", kw "ALL"],
+      [kw "SELECT", wd "a", kw "OFFSET", num "1", kw "LIMIT", num "2"],
+      [kw "SELECT", wd "a", kw "LIMIT", num "1", .sym .Comma, num "2"] ].map reparseNorm =
+    [some (true, false, true), some (true, false, true), some (true, false, true), some (true, false, true),
+     some (true, false, true), some (false, false, true), some (false, false, true)] := by
+  decide +kernel
 end Examples
 
 end SqlVerif.Props.C01Query
